@@ -6,13 +6,13 @@
    Model only (no proofs here): Cache/NetlistProofs.v. *)
 From Mos Require Import Base.Prelude.
 
-Inductive addr := A4 (a : N) | A6 (a : N).
+Inductive nl_addr := NlA4 (a : N) | NlA6 (a : N).
 
 Definition v4_prefix : N := 281470681743360.   (* 0xffff_0000_0000 *)
 
 (* addr2Ipv6 / As16 *)
-Definition to16 (a : addr) : N :=
-  match a with A4 x => (v4_prefix + x)%N | A6 x => x end.
+Definition to16 (a : nl_addr) : N :=
+  match a with NlA4 x => (v4_prefix + x)%N | NlA6 x => x end.
 
 Record range := mkRange { r_start : N; r_end : N; r_val : list N }.
 
@@ -77,7 +77,7 @@ Definition linear_spec (rs : list range) (ip : N) : option (list N) :=
 Inductive mline :=
 | MBlank                                      (* empty line or comment only *)
 | MBad                                        (* missing comma / unparsable address *)
-| MRange (s e : addr) (label : list N).       (* start,end,label *)
+| MRange (s e : nl_addr) (label : list N).       (* start,end,label *)
 
 Definition is_bad (l : mline) : bool := match l with MBad => true | _ => false end.
 Fixpoint ranges_of (ls : list mline) : list range :=
@@ -92,7 +92,7 @@ Definition load_marker (ls : list mline) : option (list range) :=
   if existsb is_bad ls then None else build (ranges_of ls).
 
 (* cacheCtl.ipMark / ipMarker.Mark: "" when there is no marker, the address is invalid or no range contains it *)
-Definition mark_of (m : option (list range)) (a : option addr) : res (list N) :=
+Definition mark_of (m : option (list range)) (a : option nl_addr) : res (list N) :=
   match m, a with
   | Some es, Some a => do r <- lookup es (to16 a); Ok (match r with Some lb => lb | None => [] end)
   | _, _ => Ok []
